@@ -239,6 +239,8 @@ class Output(BaseOutput):
             # Living particles are stored at index pid
             pid = state.pid[state.alive]
             for var in self.instance_variables:
+                if self.lonlat and var in ["lon", "lat"]:
+                    continue  # Computed from the position below
                 self.nc.variables[var][self.local_record_count, pid] = getattr(
                     state, var
                 )[state.alive]
@@ -248,6 +250,8 @@ class Output(BaseOutput):
             end = start + count
             self.nc.variables["particle_count"][self.local_record_count] = count
             for var in self.instance_variables:
+                if self.lonlat and var in ["lon", "lat"]:
+                    continue  # Computed from the position below
                 self.nc.variables[var][start:end] = getattr(state, var)
 
         # Compute and save lon, lat if requested
